@@ -186,6 +186,8 @@ func callIntrinsic(fr *frame, fn *ssa.Function, args []value) (value, bool) {
 			}
 		}
 		return true, true
+	case "zzvBodyChildren":
+		return bodyChildren(fr, args[0], fn.Signature.Params().At(0).Type()), true
 	case "zzvIsSymbolic":
 		return true, true
 	case "zzvStrContains":
